@@ -122,7 +122,7 @@ func (ev *Ev) ident(name string) Val {
 	case "S":
 		return intV("S")
 	}
-	if v, ok := ev.cur.lets[name]; ok {
+	if v, ok := ev.now.lets[name]; ok {
 		return v
 	}
 	// results
@@ -139,7 +139,7 @@ func (ev *Ev) ident(name string) Val {
 	} else {
 		// source variable at a loop head takes precedence over the parameter of the same name
 		if ev.ctx.loopHeader != nil {
-			if v, ok := x.sourceVar(ev.cur, name, ev.ctx.loopHeader); ok {
+			if v, ok := x.sourceVar(ev.now, name, ev.ctx.loopHeader); ok {
 				return v
 			}
 		}
@@ -153,7 +153,7 @@ func (ev *Ev) ident(name string) Val {
 		}
 	}
 	if name == "idx" && ev.ctx.loopHeader != nil {
-		return x.loopIndex(ev.cur, ev.ctx.loopHeader)
+		return x.loopIndex(ev.now, ev.ctx.loopHeader)
 	}
 	// ghost variables
 	if v, ok := ev.cur.ghost[name]; ok {
@@ -693,11 +693,14 @@ func (ev *Ev) call(n *ast.CallExpr) Val {
 		}
 		saveCur, saveRes := ev.cur, ev.ctx.results
 		ev.cur = ev.old
-		// in old(), loop source variables are not available: parameters only
-		saveHdr := ev.ctx.loopHeader
-		ev.ctx.loopHeader = nil
+		// loop variables (idx, source variables) keep their current values inside old(); heap and ghost state are the old ones
 		v := ev.eval(n.Args[0])
-		ev.cur, ev.ctx.results, ev.ctx.loopHeader = saveCur, saveRes, saveHdr
+		switch v.(type) {
+		case Ptr, PCell, PElem, Iface:
+			// old(p) of a pointer / interface is the old content of the object, not the (unchanged) reference
+			v = ev.x.flat(ev.cur, ev.derefAll(v))
+		}
+		ev.cur, ev.ctx.results = saveCur, saveRes
 		return v
 	case "imp":
 		need(2)
@@ -884,9 +887,18 @@ func (ev *Ev) sameExcept(a, b Val, except []string) string {
 	var la, lb []leaf
 	leaves(a, "", &la)
 	leaves(b, "", &lb)
+	// a store record keeps the BaseAuction fields under "Base", an object under "BaseAuction": compare by field name
+	norm := func(p string) string {
+		p = strings.Replace(p, ".BaseAuction.", ".", 1)
+		p = strings.Replace(p, ".Base.", ".", 1)
+		return p
+	}
+	for i := range la {
+		la[i].Path = norm(la[i].Path)
+	}
 	mb := map[string]Sc{}
 	for _, l := range lb {
-		mb[l.Path] = l.S
+		mb[norm(l.Path)] = l.S
 	}
 	var cs []string
 	seen := 0
@@ -904,8 +916,8 @@ outer:
 		seen++
 		cs = append(cs, sEq(l.S.T, o.T))
 	}
-	if seen == 0 {
-		ev.errf("sameExcept compares no leaf")
+	if seen == 0 || seen < len(la)/2 {
+		ev.errf("sameExcept compares only %d of %d leaves (shape mismatch?)", seen, len(la))
 	}
 	return sAnd(cs...)
 }
